@@ -66,6 +66,11 @@ def run(ck):
         cases.append({"mode": "total", "renderer": "hybrid", "N": 64, "profile": "sersic",
                       "params": {"xc": 32.3, "yc": 31.6, "flux": 100.0, "r_eff": 4.0, "n": 4.0, "ellip": 0.3, "theta": 0.7}, "P": 9, "psf": "gauss", "fwhm": 3.0,
                       "psf_sum": ps_, "seed": 1, "band": True})
+    for (re_, n_, e_, fw_) in ([(1.5, 4.0, 0.85, 4.7)] if quick else [(1.5, 4.0, 0.85, 4.7), (2.0, 3.0, 0.9, 5.9), (1.0, 4.0, 0.9, 4.7), (1.5, 2.5, 0.8, 3.5)]):
+        for rend_ in ("hybrid", "fourier"):
+            cases.append({"mode": "total", "renderer": rend_, "N": 64, "profile": "sersic",
+                          "params": {"xc": 32.3, "yc": 31.6, "flux": 100.0, "r_eff": re_, "n": n_, "ellip": e_, "theta": 0.7}, "P": 15, "psf": "gauss", "fwhm": fw_,
+                          "psf_sum": 1.0, "seed": 3, "band": True})
     ck.log("implementation: %d cases (fft / amps / totals)" % len(cases))
     import concurrent.futures as cf
     nsh = min(6, vlib.NCPU)
